@@ -20,7 +20,8 @@ EXPLANATION = (
     "visitor's functions): exactly +1 from both entries of the range-only visitor and at every format_block call of the "
     "ordinary formatters - the necessary condition for an in-range statement nested in an out-of-range one to get the "
     "indentation whole-file formatting gives it. Not decided: the rest of 'in-range statements equal the whole-file "
-    "result' (layout; tables and hanging expressions add indent levels the range-only visitor does not model).")
+    "result' (layout; tables and hanging expressions add indent levels the range-only visitor does not model)."
+    "Later rounds: (R-ONCE) no formatter is applied to a node that came out of a formatter (such nodes carry no source positions, so every range test on them answers NotInRange).")
 ASSUMPTIONS = ["to_owned/clone of a full_moon node reproduces its tokens and trivia verbatim",
                "rustc MIR and Instance::try_resolve are trusted"]
 
